@@ -24,7 +24,8 @@ RULE = ("random spec trees to depth 3 (quick, 16000 trees) / 4 (thorough, 16 x 2
         "adapters, numpy) x 4 values x {little, big} endian x {rich, plain-data} reads x trailing bytes for "
         "self-delimiting specs, plus one out-of-limit probe per tree. distinct_nontrivial = distinct spec trees "
         "(by printed S-expression) with at least one composite node that round-tripped"
-        ". Rounds 6-7: the size query is repeated after every write; self-referential specs (a node record holding a list of nodes, 4 shapes) against a hand-computed encoding; text with characters that line-oriented helpers treat as breaks")
+        ". Rounds 6-7: the size query is repeated after every write; self-referential specs (a node record holding a list of nodes, 4 shapes) against a hand-computed encoding; text with characters that line-oriented helpers treat as breaks"
+        ". Round 8: composite (multi-bit) flag values for optional-by-flag fields")
 ASSUMPTIONS = [
     "grammar side-conditions are the combinators' documented contracts: window-consuming specs only last in their "
     "window, greedy collections get entries of non-zero width, fixed-length collections have length >= 1, "
